@@ -1,5 +1,7 @@
 import VlsModel.Model.Bolt3Htlc
 import VlsModel.Gen.FnTxUtil
+import VlsModel.Gen.FnTx
+import VlsModel.Gen.FnChannel
 import VlsModel.Lemmas.FnGen
 /-
 C04 — `Bolt3.estimateFeerate` (the feerate the signer infers for a second-level HTLC transaction,
@@ -24,5 +26,58 @@ theorem C04_fn_estimate_feerate (fee weight : Nat) (hw : weight ≠ 0) :
 theorem C04_fn_estimate_feerate_weight_zero (fee : Nat) :
     Gen.FnTxUtil.estimate_feerate_per_kw fee 0 = .error .panic := by
   simp [Gen.FnTxUtil.estimate_feerate_per_kw, Rs.udiv, Rs.panic, bind, Except.bind]
+
+/-! ## `ChannelSetup::{is_static_remotekey, is_anchors, is_zero_fee_htlc}` (channel.rs) = the model's `CType` predicates
+
+The decoder (`handle_output`, the HTLC templates), the validator and `features()` branch on these; the model's
+`CType.isAnchors` / `isZeroFee` are proved equal to the bodies regenerated from `vls-core/src/channel.rs`
+(`Gen/FnChannel.lean`; the generated `CommitmentType` lists the enum's variants in declaration order). -/
+
+def toGenCType : Bolt3.CType → Gen.FnChannel.CommitmentType
+  | .legacy => .Legacy
+  | .staticRemoteKey => .StaticRemoteKey
+  | .anchors => .Anchors
+  | .anchorsZeroFee => .AnchorsZeroFeeHtlc
+
+/-- every variant of the source's enum is the image of a model type: the model misses no commitment type -/
+theorem C04_fn_ctype_surjective (g : Gen.FnChannel.CommitmentType) : ∃ t, toGenCType t = g := by
+  cases g
+  · exact ⟨.legacy, rfl⟩
+  · exact ⟨.staticRemoteKey, rfl⟩
+  · exact ⟨.anchors, rfl⟩
+  · exact ⟨.anchorsZeroFee, rfl⟩
+
+theorem C04_fn_is_anchors (t : Bolt3.CType) :
+    Gen.FnChannel.ChannelSetup.is_anchors ⟨toGenCType t⟩ = t.isAnchors := by
+  cases t <;> rfl
+
+theorem C04_fn_is_zero_fee_htlc (t : Bolt3.CType) :
+    Gen.FnChannel.ChannelSetup.is_zero_fee_htlc ⟨toGenCType t⟩ = t.isZeroFee := by
+  cases t <;> rfl
+
+/-- `is_static_remotekey` = "not Legacy" (the model's `canon` builds the same p2wpkh to_remote for Legacy and
+    StaticRemoteKey: the payment key is an input of the model, `Keys.cPayment`) -/
+theorem C04_fn_is_static_remotekey (t : Bolt3.CType) :
+    Gen.FnChannel.ChannelSetup.is_static_remotekey ⟨toGenCType t⟩ = decide (t ≠ .legacy) := by
+  cases t <;> rfl
+
+/-! ## `CommitmentInfo::{has_to_broadcaster, has_to_countersigner}` (tx.rs) = the model's `Info.hasBc / hasCs`
+
+The singularity tests of `handle_output` read these.  The model keeps one flag per side; the code keeps
+`to_broadcaster_delayed_pubkey`, and for the countersigner an address (p2wpkh) *or* a key (delayed to_remote):
+`viaAddr` says which of the two the flag stands for. -/
+
+def toGenInfo (d : Bolt3.Info) (viaAddr : Bool) : Gen.FnTx.CommitmentInfo Unit Unit :=
+  { to_countersigner_address := if d.hasCs && viaAddr then some () else none,
+    to_countersigner_pubkey := if d.hasCs && !viaAddr then some () else none,
+    to_broadcaster_delayed_pubkey := if d.hasBc then some () else none }
+
+theorem C04_fn_has_to_broadcaster (d : Bolt3.Info) (v : Bool) :
+    Gen.FnTx.CommitmentInfo.has_to_broadcaster (toGenInfo d v) = d.hasBc := by
+  cases h : d.hasBc <;> simp [Gen.FnTx.CommitmentInfo.has_to_broadcaster, toGenInfo, h]
+
+theorem C04_fn_has_to_countersigner (d : Bolt3.Info) (v : Bool) :
+    Gen.FnTx.CommitmentInfo.has_to_countersigner (toGenInfo d v) = d.hasCs := by
+  cases h : d.hasCs <;> cases v <;> simp [Gen.FnTx.CommitmentInfo.has_to_countersigner, toGenInfo, h]
 
 end VlsModel.Props.C04Fn
